@@ -63,11 +63,13 @@ def build_coq(timeout=3000):
     with Lock("build"):
         os.makedirs(GEN, exist_ok=True)
         logs = []
+        failed = {}
         for tr in sorted(glob.glob(os.path.join(VERIF, "harness", "translate_*.py"))):
             rc, out = sh([PY, tr], timeout=900, env=dict(os.environ, PYTHONPATH=REPO, PYTHONHASHSEED="0"))
             logs.append(out[-2000:])
-            if rc != 0:
-                return False, f"translator {os.path.basename(tr)} failed:\n" + out[-3000:]
+            if rc != 0:   # fail closed for the properties that rest on this table, not for everybody
+                failed[os.path.basename(tr)] = out[-3000:]
+        build_coq.failed_translators = failed
         if not os.path.exists(os.path.join(COQ, "Makefile")) or os.path.getmtime(os.path.join(COQ, "Makefile")) < os.path.getmtime(os.path.join(COQ, "_CoqProject")):
             rc, out = sh("coq_makefile -f _CoqProject -o Makefile", cwd=COQ)
             if rc != 0:
@@ -77,6 +79,17 @@ def build_coq(timeout=3000):
         # per-file limit: one slow file of one property must not hold the build lock for everybody
         rc, out = sh(f"timeout {timeout} make -k -j{NCPU} COQC='timeout 600 coqc'", cwd=COQ, timeout=timeout + 60)
         return True, out[-4000:]
+
+
+TRANSLATOR_OWNERS = {"translate_promote.py": ("C01",), "translate_c04_rules.py": ("C04", "C19")}
+
+
+def translator_failure(pid):
+    """text of the failure of a translator this property rests on, or None"""
+    for name, log in getattr(build_coq, "failed_translators", {}).items():
+        if pid in TRANSLATOR_OWNERS.get(name, (pid,)):
+            return f"translator {name} failed (the model can no longer be regenerated from the source):\n{log}"
+    return None
 
 
 def coqc_text(name, text, timeout=600):
